@@ -22,6 +22,20 @@
                                [torder] is the order in which the listed top-level objects were (last) added to
                                their maps.  A copy inherits the hidden flag when visibility is kept ([copy()] keeps
                                it by default).
+    - [TParse m doc]           (round 4) [VMF.parse] of a document into the new map [m], as the PROGRAM [prog] that
+                               translate/c08_sites.py reads off the body of [VMF.parse] on every run: the steps, in
+                               source order, that touch entity / brush / face IDs.  [PPlaceholder]: the [VMF()]
+                               constructor makes a placeholder worldspawn (fresh entity ID).  [PWorld]: the world
+                               block is parsed ([Entity.parse(.., _worldspawn=True)]): every world brush in file
+                               order (faces, then the brush; hidden ones flagged), then the worldspawn entity with
+                               the ID the block asks for.  [PDropPlaceholder]: [map.spawn] is re-bound, the last
+                               reference to the placeholder goes and its destructor runs AT THAT MOMENT (CPython
+                               reference counting) -- before the entity blocks are parsed, so the ID it held is free
+                               again for them.  [PEntities]: the entity blocks in file order (their brushes and faces
+                               first, hidden ones flagged).  [PReleasePlaceholder]: an explicit release of the
+                               placeholder's ID by [parse] itself (no such step in the pinned tree: the destructor
+                               releases it; with both, the ID is released twice and whoever took it in between
+                               shares it with the next object).
     The state is the three single-kind worlds of SM/IdWorld.v plus, for every top-level object, the indexes of its
     parts in those worlds.  Parameters: the release / copy flags of the three kinds (read from the source).
     Executable definitions only; proofs are in SM/IdNestProofs.v. *)
@@ -34,6 +48,15 @@ Record ttop := { tt_ent : option nat; tt_solids : list (nat * list nat); tt_home
 Record tworld := { tE : wworld; tS : wworld; tF : wworld; ttops : list ttop; torder : list nat }.
 Definition tw0 : tworld := {| tE := ww0; tS := ww0; tF := ww0; ttops := []; torder := [] |}.
 
+(** A parsed document, as far as entity / brush / face IDs go: the desired ID of the world block, the world brushes
+    (hidden?, (desired ID, desired face IDs)) in file order, the entity blocks (hidden?, (desired ID, brushes)). *)
+Record pdoc := { pd_world : Z; pd_brushes : list (bool * (Z * list Z)); pd_ents : list (bool * (Z * list (Z * list Z))) }.
+(** The steps of [VMF.parse] (generated from the source as [Gen.IdSites_gen.parse_program], see [TParse] above). *)
+Inductive pstep := PPlaceholder | PWorld | PDropPlaceholder | PEntities | PReleasePlaceholder.
+Definition pstep_ok (p : pstep) : bool := match p with PReleasePlaceholder => false | _ => true end.
+(** [parse] itself releases no ID: releases are left to the destructors. *)
+Definition prog_ok (prog : list pstep) : bool := forallb pstep_ok prog.
+
 Inductive tev :=
 | TCreateEnt (m : nat) (d : Z) (sds : list (Z * list Z))
 | TCreateBrush (m : nat) (sd : Z * list Z)
@@ -43,7 +66,8 @@ Inductive tev :=
 | TDestroy (t : nat)
 | TCreateSpawn (m : nat)
 | THide (t : nat) (b : bool)
-| TCollapse (s : nat) (m : nat) (keep : bool).
+| TCollapse (s : nat) (m : nat) (keep : bool)
+| TParse (m : nat) (doc : pdoc).
 
 (** Index the next object of a world gets. *)
 Definition nobj (w : wworld) : nat := length (wobjs w).
@@ -93,8 +117,17 @@ Definition tcollapse_sources (w : tworld) (s : nat) (keep : bool) : list nat :=
   filter (λ t, thidden w t = false) (tlisted_of w s false) ++
   filter (λ t, keep || negb (thidden w t) = true) (tlisted_of w s true).
 
+(** The manager that issued the ID of object [k] forgets it; the object lives on (what an explicit
+    [<map>.ent_id.discard(obj.id)] outside a destructor does). *)
+Definition wrelease (k : nat) (w : wworld) : wworld :=
+  match wobjs w !! k with
+  | Some o => {| wmans := <[wowner o := discard (wid o) (man_of w (wowner o))]> (wmans w); wobjs := wobjs w |}
+  | None => w
+  end.
+
 Section nest.
   Variables rorE rorS rorF ctdE ctdS ctdF : bool.
+  Variable prog : list pstep.
 
   Definition tapply (w : tworld) (eE eS eF : list wev) (tops : list ttop) (order : list nat) : tworld :=
     {| tE := wrun_from rorE ctdE (tE w) eE; tS := wrun_from rorS ctdS (tS w) eS;
@@ -126,17 +159,51 @@ Section nest.
     | None => w
     end.
 
+  Definition thide (w : tworld) (t : nat) (b : bool) : tworld :=
+    match ttops w !! t with
+    | Some top => tapply w [] [] [] (<[t := tset_hidden top b]> (ttops w)) (torder w)
+    | None => w
+    end.
+  (** Constructor bundle, then the hidden flag of the new top-level object. *)
+  Definition tcreate_h (w : tworld) (m : nat) (ent : option Z) (sds : list (Z * list Z)) (listed hidden : bool) : tworld :=
+    let w' := tcreate w m ent sds listed in if hidden then thide w' (length (ttops w)) true else w'.
+  Definition tdestroy (w : tworld) (t : nat) : tworld :=
+    match ttops w !! t with
+    | Some top => if tt_listed top then w else tparts WDestroy w top (ttops w) (torder w)
+    | None => w
+    end.
+  Definition trelease (w : tworld) (t : nat) : tworld :=
+    match ttops w !! t with
+    | Some top => match tt_ent top with
+                  | Some e => {| tE := wrelease e (tE w); tS := tS w; tF := tF w; ttops := ttops w; torder := torder w |}
+                  | None => w
+                  end
+    | None => w
+    end.
+
+  (** One step of [VMF.parse]; the second component is the placeholder worldspawn while the map still refers to it. *)
+  Definition pstep_run (m : nat) (d : pdoc) (st : tworld * option nat) (p : pstep) : tworld * option nat :=
+    let w := st.1 in
+    match p with
+    | PPlaceholder => (tcreate w m (Some (-1)) [] false, Some (length (ttops w)))
+    | PWorld =>
+        (tcreate (fold_left (λ w (b : bool * (Z * list Z)), tcreate_h w m None [b.2] true b.1) (pd_brushes d) w)
+                 m (Some (pd_world d)) [] false, st.2)
+    | PDropPlaceholder => match st.2 with Some t => (tdestroy w t, None) | None => st end
+    | PEntities =>
+        (fold_left (λ w (e : bool * (Z * list (Z * list Z))), tcreate_h w m (Some e.2.1) e.2.2 true e.1) (pd_ents d) w, st.2)
+    | PReleasePlaceholder => match st.2 with Some t => (trelease w t, st.2) | None => st end
+    end.
+  Definition tparse (w : tworld) (m : nat) (d : pdoc) : tworld := (fold_left (pstep_run m d) prog (w, None)).1.
+
   Definition tstep (w : tworld) (e : tev) : tworld :=
     match e with
     | TCreateEnt m d sds => tcreate w m (Some d) sds true
     | TCreateBrush m sd => tcreate w m None [sd] true
     | TCreateSpawn m => tcreate w m (Some (-1)) [] false
     | TCopy t m d explicit => tcopy w t m d explicit true
-    | THide t b =>
-        match ttops w !! t with
-        | Some top => tapply w [] [] [] (<[t := tset_hidden top b]> (ttops w)) (torder w)
-        | None => w
-        end
+    | THide t b => thide w t b
+    | TParse m d => tparse w m d
     | TRemove t =>
         match ttops w !! t with
         | Some top => if tt_listed top
@@ -150,11 +217,7 @@ Section nest.
                       else tparts WReAdd w top (<[t := tset_listed top true]> (ttops w)) (torder w ++ [t])
         | None => w
         end
-    | TDestroy t =>
-        match ttops w !! t with
-        | Some top => if tt_listed top then w else tparts WDestroy w top (ttops w) (torder w)
-        | None => w
-        end
+    | TDestroy t => tdestroy w t
     | TCollapse s m keep =>
         if decide (s = m) then w
         else fold_left (λ w t, tcopy w t m (-1) true keep) (tcollapse_sources w s keep) w
